@@ -408,9 +408,13 @@ func runC36(p *Prog, r *Result) {
 	checkRegexpAnchoring(p, r, "R36e", []string{"cmd/shfmt", "fileutil"})
 	r.Rule("R36f", "the language detected from a shebang is detected from the very bytes that are formatted, in the file mode and in the stdin mode alike", 2)
 	checkShebangFromFormattedBytes(p, r, "R36f")
+	r.Rule("R36g", "the file mode hands formatBytes exactly the bytes it read from the file", 2)
+	checkFileBytesUntouched(p, r, "R36g")
 }
 
 var c36Controls = []Control{
+	{Name: "file-mode-strips-a-prefix", Rule: "R36g", WantKey: "formatPath#readBuf.Write(", File: "cmd/shfmt/main.go",
+		Mutate: ctlReplaceAnywhere("\t\treadBuf.Write(copyBuf[:n])\n", "\t\treadBuf.Write(bytes.TrimPrefix(copyBuf[:n], []byte(\"\\xef\\xbb\\xbf\")))\n")},
 	{Name: "file-mode-sniffs-a-prefix", Rule: "R36f", WantKey: "formatPath#the language comes from the shebang", File: "cmd/shfmt/main.go",
 		Mutate: ctlReplaceAnywhere("l.Set(fileutil.Shebang(readBuf.Bytes()))", "l.Set(fileutil.Shebang(copyBuf[:32]))")},
 	{Name: "vcs-pattern-loses-its-grouping", Rule: "R36e", WantKey: "cmd/shfmt#regexp", File: "cmd/shfmt/main.go",
